@@ -193,8 +193,10 @@ def keyword_shapes(sig, max_named, max_kw, ordered):
     return out
 
 
-def calls_for(sig, max_pos, max_named, max_star, max_kw, ordered):
+def calls_for(sig, max_pos, max_named, max_star, max_kw, ordered, keep=None):
     ks = keyword_shapes(sig, max_named, max_kw, ordered)
+    if keep is not None:
+        ks = [x for x in ks if keep(x)]
     stars = [None] + list(range(max_star + 1))
     out = []
     for npos in range(max_pos + 1):
@@ -521,6 +523,45 @@ def sampled_shapes(rng, sigs, per_pair, pick, label):
         yield (s, calls, label)
 
 
+def valid_call(rng, sig):
+    """A call the call rule accepts: every required parameter given exactly once (positionally, by name or through
+    *seq / **map), optional ones sometimes, surplus only where *args / **kwargs can take it."""
+    positional = [p for p in sig if p["kind"] in ("po", "pk")]
+    need = 0
+    for i, p in enumerate(positional):
+        if p["kind"] == "po" and p["default"] is None:
+            need = i + 1
+    t = rng.randint(need, len(positional))
+    kws = []
+    for i, p in enumerate(sig):
+        if p["kind"] == "ko" or (p["kind"] == "pk" and i >= t):
+            if p["default"] is None or rng.random() < 0.5:
+                kws.append(p["name"])
+        elif p["kind"] == "po" and i >= t and p["default"] is None:
+            return None
+    extra_pos = rng.randint(0, 2) if any(p["kind"] == "va" for p in sig) else 0
+    if any(p["kind"] == "vk" for p in sig):
+        kws += FOREIGN[:rng.randint(0, 2)]
+    rng.shuffle(kws)
+    total = t + extra_pos
+    npos = rng.randint(0, total)
+    star = total - npos
+    cut = rng.randint(0, len(kws))
+    use_kw = cut < len(kws) or rng.random() < 0.3
+    c = {"pos": list(range(1, npos + 1)),
+         "named": [[n, 11 + i] for i, n in enumerate(kws[:cut])],
+         "star": list(range(21, 21 + star)) if (star or rng.random() < 0.3) else None,
+         "kw": [[k, 31 + i] for i, k in enumerate(kws[cut:])] if use_kw else None}
+    return c
+
+
+def valid_work(rng, sigs, per_sig):
+    for s in sigs:
+        calls = [c for c in (valid_call(rng, s) for _ in range(per_sig)) if c is not None]
+        if calls:
+            yield (s, calls, "V")
+
+
 def random_work(rng, nsigs, maxn):
     for _ in range(nsigs):
         s = rand_sig(rng, maxn)
@@ -538,21 +579,29 @@ def strata(ctx):
         w = sampled_shapes(rng, gen_sigs(5), 2, lambda ks: ks, "S")
         out.append(("S: every signature with <= 5 parameters x for each of the 25 (positional count 0..4, *seq absent/0..3) pairs 2 "
                     "keyword shapes drawn from the <= 3 named x <= 3 **map shapes", w, False))
+        out.append(("V: every signature with <= 5 parameters x 12 random calls that the call rule accepts (required parameters given once, "
+                    "positionally / by name / through *seq / **map, surplus only into *args / **kwargs)", valid_work(rng, gen_sigs(5), 12), False))
         nr, maxn = 300, 8
     else:
-        w = ((s, calls_for(s, 4, 3, 3, 3, True), "B1") for s in gen_sigs(2))
-        out.append(("B1: every signature with <= 2 parameters x every call with <= 4 positional, <= 3 named (all orders), *seq absent or of "
-                    "length 0..3, **map absent or of size 0..3 (all orders, incl. a non-string key); surplus names up to renaming", w, True))
-        w = ((s, calls_for(s, 4, 3, 3, 3, False), "B2") for s in gen_sigs(3) if len(s) == 3)
-        out.append(("B2: every signature with 3 parameters x every call with <= 4 positional, <= 3 named, *seq absent or of length 0..3, "
-                    "**map absent or of size 0..3 (one order per set of keywords); surplus names up to renaming", w, True))
+        big = lambda x: len(x[0]) == 3 or (x[1] is not None and len(x[1]) == 3)   # noqa: E731
+        w = ((s, calls_for(s, 4, 2, 3, 2, True), "B1") for s in gen_sigs(2))
+        out.append(("B1: every signature with <= 2 parameters x every call with <= 4 positional, <= 2 named (all orders), *seq absent or of "
+                    "length 0..3, **map absent or of size 0..2 (all orders, incl. a non-string key); surplus names up to renaming", w, True))
+        w = ((s, calls_for(s, 4, 3, 3, 3, False, big), "B1x") for s in gen_sigs(2))
+        out.append(("B1x: every signature with <= 2 parameters x every call with <= 4 positional, *seq absent or of length 0..3 and 3 named "
+                    "or a **map of size 3 (<= 3 of each; one order per set of keywords); surplus names up to renaming", w, True))
+        w = ((s, calls_for(s, 4, 2, 3, 2, False), "B2") for s in gen_sigs(3) if len(s) == 3)
+        out.append(("B2: every signature with 3 parameters x every call with <= 4 positional, <= 2 named, *seq absent or of length 0..3, "
+                    "**map absent or of size 0..2 (one order per set of keywords); surplus names up to renaming", w, True))
         w = ((s, calls_for(s, 4, 1, 3, 1, False), "C") for s in gen_sigs(5) if len(s) > 3)
         out.append(("C: every signature with 4 or 5 parameters x every call with <= 4 positional, <= 1 named, *seq absent or of length 0..3, "
                     "**map absent or of size 0..1; surplus names up to renaming", w, True))
-        w = sampled_shapes(rng, [s for s in gen_sigs(5) if len(s) > 3], 12,
+        w = sampled_shapes(rng, [s for s in gen_sigs(5) if len(s) >= 3], 12,
                            lambda ks: [x for x in ks if len(x[0]) >= 2 or (x[1] is not None and len(x[1]) >= 2)], "D")
-        out.append(("D: every signature with 4 or 5 parameters x for each (positional count, *seq) pair 12 keyword shapes with >= 2 named or a "
+        out.append(("D: every signature with 3, 4 or 5 parameters x for each (positional count, *seq) pair 12 keyword shapes with >= 2 named or a "
                     "**map of size >= 2 (sampled from the <= 3 x <= 3 shapes)", w, False))
+        out.append(("V: every signature with <= 5 parameters x 60 random calls that the call rule accepts (required parameters given once, "
+                    "positionally / by name / through *seq / **map, surplus only into *args / **kwargs)", valid_work(rng, gen_sigs(5), 60), False))
         nr, maxn = 6000, 8
     out.append(("R: %d random signatures with <= %d parameters x 10 random calls each (<= 6 positional, <= 4 named, *seq <= 4, **map <= 4, "
                 "random orders)" % (nr, maxn), random_work(rng, nr, maxn), False))
@@ -600,7 +649,7 @@ def correspond(ctx):
         "rule": "one evaluation = one call executed through one call path of the real library and compared with the extracted Coq model "
                 "(exact slot contents or exact error class) and the extracted specification; non-trivial = distinct (signature, call) pairs "
                 "that do not take the all-positional exact-arity fast path (distinct within each round of <= 250k calls; rounds of the "
-                "enumerated strata are disjoint by construction, the random stratum may repeat a pair)",
+                "enumerated strata are disjoint by construction, the sampled strata D/S/R may repeat a pair of an enumerated one)",
         "traces_validated_against_impl": st.get("calls", 0),
         "calls": st.get("calls", 0),
         "strata": described,
